@@ -98,3 +98,9 @@ Theorem C16_listed_spellings_are_the_sources :
   /\ (map (fun p => op_is_word (fst p)) src_op_is_word = map snd src_op_is_word /\ forall o, In o (map fst src_op_is_word)).
 Proof. exact (conj word_display_is_the_sources (conj operator_display_is_the_sources operator_words_are_the_sources)). Qed.
 Print Assumptions C16_listed_spellings_are_the_sources.
+
+Theorem C16_operator_merges_are_the_sources : forall a c n,
+  triple_at (TOp a) (TWs n) (TOp c) = option_map TOp (assoc_merge a c src_triple_merges)
+  /\ double_at (TOp a) (TOp c) = option_map TOp (assoc_merge a c src_double_merges).
+Proof. exact merges_are_the_sources. Qed.
+Print Assumptions C16_operator_merges_are_the_sources.
